@@ -13,12 +13,16 @@ CTX = {}
 
 def gen_case(rng):
     return {'kind': 'emitleak', 'order': rng.choice(['over-first', 'plain-first']),
-            'late': rng.random() < 0.5, 'ticks': rng.choice([2, 3])}
+            'late': rng.random() < 0.5, 'ticks': rng.choice([2, 3]),
+            'via': rng.choice(['_schema', '_schema', 'merge', 'merge2'])}
 
 
 def corpus():
     return [{'kind': 'emitleak', 'order': 'over-first', 'late': True, 'ticks': 3},
-            {'kind': 'emitleak', 'order': 'plain-first', 'late': False, 'ticks': 2}]
+            {'kind': 'emitleak', 'order': 'plain-first', 'late': False, 'ticks': 2},
+            # the flags are switched by Composite.merge(schema_override=…): in the last merge, or one merge earlier
+            {'kind': 'emitleak', 'order': 'over-first', 'late': False, 'ticks': 2, 'via': 'merge'},
+            {'kind': 'emitleak', 'order': 'over-first', 'late': False, 'ticks': 2, 'via': 'merge2'}]
 
 
 def run_impl(case):
@@ -64,7 +68,9 @@ def run_impl(case):
         emitter_registry.register('verif_el', RowEmitter)
     obs = {'rows': rows}
     try:
-        over = Cell({'_schema': {'v': {'level': {'_emit': True}, 'raw': {'_emit': False}}}})
+        flags = {'v': {'level': {'_emit': True}, 'raw': {'_emit': False}}}
+        via = case.get('via', '_schema')
+        over = Cell({'_schema': flags}) if via == '_schema' else Cell()
         plain = Cell()
         cells = {'a': {'cell': over}, 'b': {'cell': plain}} if case['order'] == 'over-first' else \
             {'b': {'cell': plain}, 'a': {'cell': over}}
@@ -73,8 +79,17 @@ def run_impl(case):
         if case['late']:
             processes['maker'] = Maker()
             topology['maker'] = {'cells': ('cells',)}
-        eng = Engine(processes=processes, topology=topology, emitter={'type': 'verif_el', 'ctx_key': key},
-                     display_info=False, progress_bar=False)
+        if via == '_schema':
+            eng = Engine(processes=processes, topology=topology, emitter={'type': 'verif_el', 'ctx_key': key},
+                         display_info=False, progress_bar=False)
+        else:
+            from vivarium.core.composer import Composite
+            comp = Composite({'processes': processes, 'topology': topology})
+            comp.merge(schema_override={'cells': {'a': {'cell': flags}}})
+            if via == 'merge2':
+                comp.merge(state={'marker': {'m': 1}})        # a later merge that carries no override
+            eng = Engine(composite=comp, emitter={'type': 'verif_el', 'ctx_key': key},
+                         display_info=False, progress_bar=False)
         eng.update(case['ticks'])
         obs['rows'] = list(rows)
         obs['shared_intact'] = SHARED == {'v': {'level': {'_default': 0, '_emit': False},
